@@ -82,7 +82,7 @@ var ctors = map[string]interface{}{
 	"NewGroupRecord": protocol.NewGroupRecord, "NewIGMPv3Report": protocol.NewIGMPv3Report,
 	"NewDHCP": protocol.NewDHCP, "NewDHCPDiscover": protocol.NewDHCPDiscover, "NewDHCPOffer": protocol.NewDHCPOffer,
 	"NewDHCPRequest": protocol.NewDHCPRequest, "NewDHCPAck": protocol.NewDHCPAck, "NewDHCPNak": protocol.NewDHCPNak,
-	"NewBuffer": util.NewBuffer,
+	"NewBuffer": util.NewBuffer, "DHCPNewOption": protocol.DHCPNewOption,
 }
 
 // zero values of types that have no constructor (built as literals by callers)
@@ -111,6 +111,33 @@ var zeroTypes = map[string]func() interface{}{
 	"TTLTLV":                     func() interface{} { return &protocol.TTLTLV{} },
 	"LLDP":                       func() interface{} { return &protocol.LLDP{} },
 	"BundlePropertyExperimenter": func() interface{} { return &of.BundlePropertyExperimenter{} },
+}
+
+// readWriter: the Read/Write style codecs of protocol/dhcp.go and protocol/lldp.go (Read = encode into b, Write = decode from b).
+type readWriter interface {
+	Read(b []byte) (int, error)
+	Write(b []byte) (int, error)
+}
+
+// rwAdapter presents such a codec as a util.Message.
+type rwAdapter struct{ v readWriter }
+
+func (a *rwAdapter) Inner() interface{} { return a.v }
+func (a *rwAdapter) MarshalBinary() ([]byte, error) {
+	buf := make([]byte, 8192)
+	n, err := a.v.Read(buf)
+	return buf[:n], err
+}
+func (a *rwAdapter) UnmarshalBinary(b []byte) error {
+	_, err := a.v.Write(b)
+	return err
+}
+func (a *rwAdapter) Len() uint16 {
+	if l, ok := a.v.(interface{ Len() uint16 }); ok {
+		return l.Len()
+	}
+	b, _ := a.MarshalBinary()
+	return uint16(len(b))
 }
 
 type interp struct {
@@ -312,6 +339,9 @@ func (ip *interp) message(name string) util.Message {
 		if m, ok := v.Addr().Interface().(util.Message); ok {
 			return m
 		}
+	}
+	if rw, ok := v.Interface().(readWriter); ok {
+		return &rwAdapter{v: rw}
 	}
 	panic("interp: " + name + " is not a util.Message: " + v.Type().String())
 }
